@@ -261,7 +261,7 @@ func (w *c16World) newEVM(am vm.AccountManager, cfg vm.Config) *vm.EVM {
 // run executes one case from a fresh state. tr may be nil (untraced).
 func (w *c16World) run(cs *c16Case, tr *c16Tracer) (res c16Result) {
 	am := account.NewManager(w.genesis, w.db)
-	for _, s := range w.slots { // deterministic order
+	for _, s := range append(append([]common.Address{}, w.slots...), w.rewardMgr) { // deterministic order
 		if code, ok := cs.codes[s]; ok {
 			am.GetAccount(s).SetCode(code)
 		}
@@ -525,6 +525,29 @@ func (w *c16World) fixedCases(g *c16Gen) []*c16Case {
 	st.Target = common.BytesToAddress([]byte{9})
 	st.input = []byte(`{"term":"0x2","value":"835732000000000000000000"}`)
 	out = append(out, st)
+	// the reward manager is a contract: STATICCALL to the reward precompile (must be refused), then a
+	// plain CALL to it (writes), then optionally fail
+	for _, term := range []int{0, 3} {
+		ra := &asm{}
+		ra.op(opCALLDATASIZE).push(0).push(0).op(opCALLDATACOPY)
+		ra.push(32).push(0).op(opCALLDATASIZE).push(0).pushAddr(common.BytesToAddress([]byte{9})).push(50000).op(opSTATICCALL, opPOP)
+		ra.push(32).push(0).op(opCALLDATASIZE).push(0).push(0).pushAddr(common.BytesToAddress([]byte{9})).push(50000).op(opCALL, opPOP)
+		g.terminal(ra, term)
+		rc := mk("fixed:reward-manager-contract", "call", 1000000, 0, map[common.Address][]byte{w.rewardMgr: ra.b})
+		rc.Target = w.rewardMgr
+		rc.input = []byte(`{"term":"0x2","value":"835732000000000000000000"}`)
+		out = append(out, rc)
+		st2 := mk("fixed:reward-manager-contract", "static", 1000000, 0, map[common.Address][]byte{w.rewardMgr: ra.b})
+		st2.Target = w.rewardMgr
+		st2.input = rc.input
+		out = append(out, st2)
+	}
+	// plain call of the reward precompile by the reward manager (writes storage)
+	pc := mk("fixed:reward-precompile-call", "call", 100000, 0, nil)
+	pc.Caller = w.rewardMgr
+	pc.Target = common.BytesToAddress([]byte{9})
+	pc.input = []byte(`{"term":"0x2","value":"835732000000000000000000"}`)
+	out = append(out, pc)
 	// depth limit
 	for _, op := range []byte{opCALL, opDELEGATECALL} {
 		d := mk("fixed:self-recursive", "call", 1<<52, 0, map[common.Address][]byte{w.slots[0]: g.selfRecursive(op, w.slots[0], op == opCALL)})
